@@ -23,9 +23,9 @@ C06 = {
         "hist/create-after-delete", "hist/recreate-same-name-same-type", "hist/recreate-same-name-other-type",
         "hist/reopen-after-delete", "hist/rename", "hist/repos=2",
         "hist/type=keyvalue", "hist/type=roi", "hist/type=annotation", "hist/type=uint8blk",
-        # only non-empty while the DeleteAll finding is NOT listed as known (then deletions of loaded instances run):
-        #   "pure/inst=max", "hist/delete-nonempty-instance", "hist/delete-instance-with>=50-keys",
-        #   "hist/delete-nonempty-instance-followed-by-nonempty-instance-of-same-type"
+        # full-strength classes (the DeleteAll and MaxInstanceID findings are fixed in /repo, nothing is steered around):
+        "pure/inst=max", "hist/delete-nonempty-instance", "hist/delete-instance-with>=50-keys",
+        "hist/delete-nonempty-instance-followed-by-nonempty-instance-of-same-type",
     ],
     "rule": "Pure: rapid-generated triples of storage keys (instance, version, client ids from a boundary-biased uint32 generator: 0, 1, 2^31-1, 2^31, 2^31+1, max-1, max, byte-carry values, neighbours by +-1 / one bit; data/tombstone marker; type-specific key from every exported constructor of keyvalue, neuronjson, labelmap, annotation, imageblk, labelsz plus the roi layout, with prefix-related NUL-free user keys / tags and boundary coordinates and labels); the 2nd and 3rd key are derived from another one by changing one component (or two, or independently). Each key is built three ways through the exported API (context + UpdateDataKey; other context + ConstructKeyVersion/TombstoneKeyVersion + ChangeDataKeyInstance; ids 0 + ChangeDataKeyVersion/Instance) which must agree; then inverses (TKeyFromKey, DataKeyToLocalIDs, VersionFromKey, VersionFromDataKey, ClientFromKey, InstanceFromKey, IsTombstone, SplitKey/MergeKey, UnversionedKey(Prefix)), injectivity, byte order vs (instance, datum key, version) order, contiguity of a datum's versions, membership of every key in [MinVersionKey,MaxVersionKey], KeyRange, DataInstanceKeyRange, DataKeyRange, TKeyClassRange of every other key's datum / instance / class. Non-trivial: some pair of the triple differs in exactly one component and involves a boundary id. History: op lists (write / erase / bulk write of 1-70 data / delete instance via the RPC switchboard / create / rename / newversion / datastore close+reopen) over instances A,B,C of types keyvalue, roi, annotation, uint8blk in one or two repos, built in phases data -> deletion -> (reopen) -> creation under the same or another name; after every op every other instance's raw key dump (RawRangeQuery over KeyRange and over DataInstanceKeyRange, cross-checked against a wide scan partitioned by the instance id parsed from each key) and read snapshot (every read endpoint at every version) must be unchanged, a new instance must hold no keys and read like a pristine instance at every version, its instance id must never have been handed out before in the process (own record + manager's id map), ids of live instances must not change, and no key may remain under the id of a deleted instance. Non-trivial: >=1 instance deletion followed by a creation. Distinct = hash of the case value.",
     "assumptions": [
